@@ -60,3 +60,46 @@ def run(ctx):
                     "from the state (%s): a ready task that fits its pool must start at the time of its placement event on the "
                     "named / first fitting worker, a task waiting for parents is re-queued at clock + max(1, max remaining time "
                     "of the parents), a refused one at clock + 1, a cancelled one is dropped" % (j, say(io).strip(), say(mo).strip())})
+
+    # ---- S-sim-retract: retraction-heavy worlds (queued placements of several earlier invocations withdrawn and re-issued):
+    # monitor, machine with the event queue (a pop that is not minimal / not at the clock is rejected), handler layer
+    import random
+    import simgen
+    rrng = random.Random("C03-retract/%s" % ctx.seed)
+    rworlds = [simgen.gen_retract_world(rrng) for _ in range(24 if ctx.tier == "quick" else 240)]
+    rworlds = [w for w in rworlds if "zero_runtime" not in simgen.signature(w)]
+    rruns = simcommon.run_worlds(rworlds)
+    ctx.rules.append("S-sim-retract: 6-12 single-task graphs released at staggered instants, fuzzing policy in retracting mode with a "
+                     "scheduler frequency of 1-7us: TASK_PLACEMENT events queued by several earlier invocations are removed from the "
+                     "event queue and re-issued; judged by the C03 monitor, the machine with the event queue and the handler layer")
+    removes = sum(1 for r in rruns for e in r["log"] if e[0] == "qremove")
+    rfail = 0
+    for i, (w, r) in enumerate(zip(rworlds, rruns)):
+        msgs = simmon.mon_c03(r, 0) if r["log"] else []
+        if r["status"] not in ("ended", "harness-timeout") and not msgs:
+            msgs = ["the run did not end normally: %s %s" % (r["status"], (r.get("error") or "")[:200])]
+        if msgs:
+            rfail += 1
+            if rfail <= 3:
+                ctx.violation("retract_world%d" % i, {"stream": "S-sim-retract monitor", "failures": msgs[:5], "world": w,
+                                                     "run_status": r["status"],
+                                                     "what": "clock / event order / start-time clause of C03 fails in a run in which queued "
+                                                             "placements are withdrawn and re-issued"})
+    ctx.cov["streams"]["S-sim-retract:impl-monitor"] = {"cases": len(rworlds), "failing": rfail, "queue_removals": removes}
+    try:
+        mism, fed = simcommon.machine_q_stream(ctx, rworlds, rruns, stream="S-simq-retract", every=1)
+        for (i, mv, exp) in mism[:3]:
+            rej = mv[0] if isinstance(mv, list) and mv else None
+            ctx.violation("retract_simq_world%d" % i, {
+                "stream": "S-simq-retract", "world": rworlds[i], "model": mv, "implementation": exp,
+                "what": ("the machine with the event queue rejects the implementation's log at entry %s (an event popped that was "
+                         "not minimal / not at the clock, or queued in the past)" % rej[0]) if rej else
+                        "accepted but the final state differs"})
+        hm, _hfed, _k = simcommon.handlers_stream(ctx, rworlds, rruns, stream="S-handlers-retract")
+        for (i, j, mo, io) in hm[:3]:
+            if j is not None:
+                ctx.violation("retract_handler_world%d" % i, {"stream": "S-handlers-retract", "world": rworlds[i], "handler_ordinal": j,
+                                                             "model": mo, "implementation": io,
+                                                             "what": "outcome of a TASK_PLACEMENT handler differs from the handler layer"})
+    except core.ModelEvalError as e:
+        ctx.broken.append({"kind": "correspondence", "name": "S-simq-retract (machine does not evaluate)", "detail": str(e)[-500:]})
